@@ -151,7 +151,7 @@ def build(seed, prop, idx, o=None):
     if o.get("extra_state_rows", bool(rng.random() < 0.1)) and not el.meta.get("cat_key"):
         # the baseline FILE holds more states than the config names for this office (a national file, a state-level
         # race): the client must drop those rows; the reference keeps working on el.pre (the rows of the configured
-        # states), the client is handed el.pre_file
+        # states), the client is handed that file (harness.baseline_argument)
         k = int(rng.integers(1, 6))
         extra = el.pre.iloc[rng.permutation(len(el.pre))[:k]].copy()
         extra["postal_code"] = "QQ"
@@ -159,10 +159,10 @@ def build(seed, prop, idx, o=None):
         extra["geographic_unit_fips"] = [
             (f"{d}_77{j:03d}_001" if el.district else (f"77{j:03d}" if el.geo_type == "county" else f"77{j:03d}_001"))
             for j, d in enumerate(extra["district"] if "district" in extra.columns else [None] * len(extra))]
-        parts = [extra, el.pre] if rng.random() < 0.5 else [el.pre, extra]
-        el.pre_file = __import__("pandas").concat(parts).reset_index(drop=True)
-        for c in el.pre.columns:
-            el.pre_file[c] = el.pre_file[c].astype(el.pre[c].dtype)
+        # kept as "extra rows + where they go": checks may still edit el.pre after this builder returns, and the file
+        # handed to the client (harness.baseline_argument) is put together from the current el.pre
+        el.pre_extra = extra.reset_index(drop=True)
+        el.pre_extra_first = bool(rng.random() < 0.5)
         el.meta["extra_state_rows"] = int(len(extra))
         if o.get("extra_state_in_feed", bool(rng.random() < 0.6)):
             # ... and the live feed reports those units too (a national feed): for this office they are units without
@@ -194,7 +194,7 @@ def build(seed, prop, idx, o=None):
     if o.get("feed_as_lists", bool(rng.random() < 0.2)):
         call["feed_as_lists"] = True
     if o.get("pre_from_earlier_run", bool(rng.random() < 0.1)) and not el.meta.get("cat_key") \
-            and getattr(el, "pre_file", None) is None \
+            and getattr(el, "pre_extra", None) is None \
             and "baseline_pointer" not in el.config[el.election_id][0]:
         # a history: the baseline file is the one an earlier run for OTHER estimands saved (save_output=["data"]); it
         # carries that run's derived columns (weights, last_election_results_*, normalised margin), produced here by
